@@ -411,6 +411,14 @@ pub fn invariant<const N: usize, const H: usize>(
                 }
             }
 
+            // 9. entries of one vertex have pairwise distinct keys (a push
+            //    happens only on a strict improvement), so at most one is live
+            for j in 0..H {
+                if j < i && entries[j].v == e.v {
+                    ok &= entries[j].k != e.k;
+                }
+            }
+
             // 8. the predecessor carried by an entry explains its key
             if with_pred {
                 match e.p {
@@ -476,15 +484,15 @@ fn dist_base() {
 /// Inductive step for DijkstraDist on 3 vertices: any pre-state satisfying the
 /// invariant with at most H heap entries; one next(); the yield obligations
 /// and the invariant of the post-state.
-fn dist_step<const H: usize, const H2: usize>() {
+fn dist_step<const H: usize, const H2: usize>(wmax: usize) {
     const N: usize = 3;
 
-    cx::set_vcap(8);
+    cx::set_vcap(H2.max(4));
 
-    let g = any_dense::<N>(WMAX);
+    let g = any_dense::<N>(wmax);
     let src: [bool; N] = nd::bools();
     let delta = g.dist(&src);
-    let bound = N * WMAX;
+    let bound = N * wmax;
     let mut it = DijkstraDist::new(&g, mask([false; N]));
     let mut dist = [INF; N];
     let settled: [bool; N] = nd::bools();
@@ -546,15 +554,15 @@ fn dist_step<const H: usize, const H2: usize>() {
 }
 
 /// The same step for `Dijkstra` (items are bare vertices).
-fn plain_step<const H: usize, const H2: usize>() {
+fn plain_step<const H: usize, const H2: usize>(wmax: usize) {
     const N: usize = 3;
 
-    cx::set_vcap(8);
+    cx::set_vcap(H2.max(4));
 
-    let g = any_dense::<N>(WMAX);
+    let g = any_dense::<N>(wmax);
     let src: [bool; N] = nd::bools();
     let delta = g.dist(&src);
-    let bound = N * WMAX;
+    let bound = N * wmax;
     let mut it = Dijkstra::new(&g, mask([false; N]));
     let mut dist = [INF; N];
     let settled: [bool; N] = nd::bools();
@@ -658,19 +666,27 @@ pub fn c03_dist_base_n3() {
 }
 
 // Inductive step of DijkstraDist::next from ANY invariant state (3 vertices, <= 3 heap entries, weights < 2^62): covers histories of any length.
-// @verif prop=C03 tier=quick fl=f2 role=inductive/dist-step t=1800 mem=20
+// @verif prop=C03 tier=quick fl=f2 feat=cap4 role=inductive/dist-step t=3000 mem=20
 #[cfg_attr(kani, kani::proof)]
 #[cfg_attr(kani, kani::unwind(6))]
 pub fn c03_dist_step_n3_h3() {
-    dist_step::<3, 5>();
+    dist_step::<3, 4>(WMAX);
+}
+
+// The same step with weights < 256 (cheaper query; same structure).
+// @verif prop=C03 tier=quick fl=f2 feat=cap4 role=inductive/dist-step-small t=1800 mem=20
+#[cfg_attr(kani, kani::proof)]
+#[cfg_attr(kani, kani::unwind(6))]
+pub fn c03_dist_step_small_n3_h3() {
+    dist_step::<3, 4>(256);
 }
 
 // Inductive step of Dijkstra::next from any invariant state (3 vertices, <= 3 heap entries).
-// @verif prop=C03 tier=quick fl=f2 role=inductive/plain-step t=1800 mem=20
+// @verif prop=C03 tier=quick fl=f2 feat=cap4 role=inductive/plain-step t=3000 mem=20
 #[cfg_attr(kani, kani::proof)]
 #[cfg_attr(kani, kani::unwind(6))]
 pub fn c03_plain_step_n3_h3() {
-    plain_step::<3, 5>();
+    plain_step::<3, 4>(256);
 }
 
 // distances() wrapper, whole run, 2 vertices.
@@ -685,5 +701,5 @@ pub fn c03_distances_wrapper_n2() {
 #[cfg_attr(kani, kani::proof)]
 #[cfg_attr(kani, kani::unwind(8))]
 pub fn c03_dist_step_n3_h5() {
-    dist_step::<5, 7>();
+    dist_step::<5, 7>(WMAX);
 }
